@@ -474,6 +474,9 @@ def collect(seed, n):
     import vprogs
     rng = random.Random(seed * 7919 + 13)
     out = []
+    if os.environ.get("VERIF_REPLAY_DSL"):
+        # ./check <ID> --replay <file>: the replay's text only (with the hand-made witnesses, which are cheap)
+        return [("replay", os.environ["VERIF_REPLAY_DSL"].encode("utf-8"), None)] + [("witness", w.encode("utf-8"), None) for w in WITNESSES], [], rng
     n_texts = n // 4
     items, _ = texts.generate(seed, n_texts)
     out.extend((k, d, None) for k, d in items)
